@@ -43,7 +43,7 @@ class Sim:
         """returns the sid if a process is started"""
         if self.npend() >= self.maxp or name not in self.svc:
             return None
-        if auto and (cl == 1 or (cl == 3 and name == "w9")):
+        if auto and (cl % 4 == 1 or (cl % 4 == 3 and name == "w9")):
             return None
         if not auto and self.owner(name) is not None:
             return None
@@ -63,15 +63,25 @@ class Sim:
         self.events.append(tok)
 
     # ---- events
-    def connect(self, sid=None):
-        self.conns.append({"alive": True, "stub": sid})
+    def connect(self, sid=None, fd=False):
+        """fd: the connection negotiates unix-fd passing"""
+        self.conns.append({"alive": True, "stub": sid, "fd": fd})
         if sid is None:
-            self.emit("C")
+            self.emit("CF" if fd else "C")
         else:
             self.stubs[sid]["conn"] = len(self.conns) - 1
             self.stubs[sid]["used"] = True
-            self.emit("K.%d" % sid)
+            self.emit(("KF.%d" if fd else "K.%d") % sid)
         return len(self.conns) - 1
+
+    def msg_class(self, rnd, c, pol, signal=False, heavy=False):
+        """policy class + 4 (carries a unix fd: only fd-capable clients of the harness itself send those) + 8 (reply expected)"""
+        cl = pol
+        if self.conns[c]["fd"] and self.conns[c]["stub"] is None and rnd.random() < (0.5 if heavy else 0.25):
+            cl += 4
+        if not signal and rnd.random() < (0.7 if heavy else 0.4):
+            cl += 8
+        return cl
 
     def send(self, c, name, cl=0, noauto=False, signal=False):
         s = self.next_serial(c)
@@ -186,9 +196,10 @@ def gen_history(rnd, flavour="plain", length=None):
     if flavour == "uniq":
         services.append(("u%d" % rnd.randint(2, 5), 7, 1))
     maxp = rnd.choice((1, 2, 3)) if flavour == "limit" else rnd.choice((4, 8, 50, 50))
+    maxrep = rnd.choice((1, 2, 3)) if rnd.random() < 0.2 else 1000
     s = Sim(maxp, services)
     for _ in range(rnd.randint(1, 3)):
-        s.connect()
+        s.connect(fd=rnd.random() < 0.35)
     ticks = 0
     while len(s.events) < length:
         live = s.live()
@@ -206,17 +217,18 @@ def gen_history(rnd, flavour="plain", length=None):
                 s.churn(rnd)
             continue
         if not local or (r < 0.06 and len(local) < 5):
-            s.connect()
+            s.connect(fd=rnd.random() < 0.35)
         elif r < 0.36:
             c = rnd.choice(live)
-            cl = rnd.choice((0, 0, 0, 0, 0, 1, 2, 2, 3, 3))
-            s.send(c, rnd.choice(names), cl, noauto=rnd.random() < 0.07, signal=rnd.random() < 0.15)
+            sig = rnd.random() < 0.15
+            cl = s.msg_class(rnd, c, rnd.choice((0, 0, 0, 0, 0, 1, 2, 2, 3, 3)), signal=sig)
+            s.send(c, rnd.choice(names), cl, noauto=rnd.random() < 0.07, signal=sig)
         elif r < 0.50:
             s.start(rnd.choice(live), rnd.choice(names))
         elif r < 0.60:
             cand = [i for i, st in enumerate(s.stubs) if st["alive"] and not st["used"]]
             if cand:
-                s.connect(rnd.choice(cand))
+                s.connect(rnd.choice(cand), fd=rnd.random() < 0.4)
         elif r < 0.76:
             # somebody takes a name: preferably a started process its own, sometimes another one, sometimes a bystander
             stubc = [(i, st) for i, st in enumerate(s.stubs) if st["alive"] and st["conn"] is not None and s.conns[st["conn"]]["alive"]]
@@ -252,7 +264,7 @@ def gen_history(rnd, flavour="plain", length=None):
         c = s.connect()
         for n in sorted(set(n for n, _, _ in services) | set(s.svc)):
             s.start(c, n)
-    return maxp, services, timed, s.events
+    return ((maxp, maxrep) if maxrep != 1000 else maxp), services, timed, s.events
 
 
 def gen_burst(rnd):
@@ -263,9 +275,10 @@ def gen_burst(rnd):
     if rnd.random() < 0.4:
         services.append(("w9", 9, 1))
     timed = rnd.random() < 0.15
+    maxrep = rnd.choice((1, 1, 1, 2, 2)) if rnd.random() < 0.55 else 1000
     s = Sim(rnd.choice((6, 50, 50)), services)
     for _ in range(rnd.randint(2, 4)):
-        s.connect()
+        s.connect(fd=rnd.random() < 0.5)
     targets = ["w1"] if rnd.random() < 0.5 else ["w1", "w2"]
     for _ in range(rnd.randint(3, 9)):
         live = s.live()
@@ -275,7 +288,9 @@ def gen_burst(rnd):
         r = rnd.random()
         n = rnd.choice(targets)
         if r < 0.62:
-            s.send(rnd.choice(live), n, rnd.choice((0, 0, 0, 0, 2, 2, 3, 1)), signal=rnd.random() < 0.2)
+            c = rnd.choice(live)
+            sig = rnd.random() < 0.2
+            s.send(c, n, s.msg_class(rnd, c, rnd.choice((0, 0, 0, 0, 2, 2, 3, 1)), signal=sig, heavy=True), signal=sig)
         elif r < 0.85:
             s.start(rnd.choice(live), n)
         elif r < 0.93:
@@ -301,7 +316,7 @@ def gen_burst(rnd):
         st = s.stubs[sid]
         r = rnd.random()
         if r < 0.6 and st["alive"]:
-            c = s.connect(sid)
+            c = s.connect(sid, fd=rnd.random() < 0.4)
             if rnd.random() < 0.3 and ("w9", 9, 1) in services:
                 s.request(c, 9)                         # the service also owns t.N9: class 3 is refused at delivery
             if rnd.random() < 0.15:
@@ -320,7 +335,7 @@ def gen_burst(rnd):
         for n in targets:
             s.send(rnd.choice(live), n, 0)
             s.start(rnd.choice(live), n)
-    return s.maxp, services, timed, s.events
+    return ((s.maxp, maxrep) if maxrep != 1000 else s.maxp), services, timed, s.events
 
 
 def scenarios():
@@ -351,6 +366,12 @@ def scenarios():
     bad = [("w1", 1, 0), ("w2", 2, 2), ("w3", 3, 1)]
     S.append(("bad-exec", 50, bad, False, "C C A.0.1.w1.0 S.1.1.w1 A.0.2.w3.0 A.1.2.w2.0 F.1 S.0.3.w3 S.0.4.w2 F.2".split()))
     # NO_AUTO_START while an activation is pending; unknown names; killed by a signal
+    # held messages that cannot be delivered for reasons other than policy, each on its own: a unix fd for a service without fd
+    # passing (NotSupported), a sender out of reply slots (LimitsExceeded); the others are delivered, RequestName succeeds
+    S.append(("release-mixed", (50, 2), [("w1", 1, 1)], False,
+              "CF C A.0.1.w1.8 A.0.2.w1.12 A.1.1.w1.8 A.0.3.w1.8 A.0.4.w1.0 A.0.9.w1.8 S.1.2.w1 K.0 R.2.1.1 A.0.5.w1.12 A.0.6.w1.8 D.2 A.0.7.w1.8".split()))
+    S.append(("release-fd-ok", (50, 1), [("w1", 1, 1)], False, "CF CF A.0.1.w1.12 A.1.1.w1.4 A.0.2.w1.8 A.1.2.w1.14 KF.0 R.2.1.1 A.0.3.w1.4".split()))
+    S.append(("release-fd-first", 50, [("w1", 1, 1)], False, "CF C A.0.1.w1.4 A.1.1.w1.0 S.1.2.w1 K.0 R.2.1.1 A.1.3.w1.0".split()))
     # directed signals auto-start too and are held and replayed like method calls
     S.append(("signals", 50, two, False, "C C B.0.1.w1.0 A.1.1.w1.0 B.0.2.w1.2 K.0 R.2.1.1 B.1.2.w1.0 B.0.3.w2.1 B.0.4.w4.0".split()))
     S.append(("misc", 50, two, False, "C A.0.1.w1.0 U.0.2.w1.0 A.0.3.w4.0 S.0.4.w4 A.0.5.u7.0 G.0 A.0.6.w1.0".split()))
